@@ -24,6 +24,10 @@ struct LRec {
     seen: Arc<Mutex<Seen>>,
     discover_delay: Duration,
     big_status: bool,
+    /// discovery finds no backend at all: every login ends with the localized "no target" Disconnect
+    no_targets: bool,
+    /// messages come from the crate's own built-in localization adapter (tables for two languages), with the locale the client reports
+    fixed: passage_adapters::FixedLocalizationAdapter,
 }
 impl std::fmt::Debug for LRec {
     fn fmt(&self, f: &mut std::fmt::Formatter<'_>) -> std::fmt::Result {
@@ -50,13 +54,28 @@ impl AuthenticationAdapter for LRec {
 impl DiscoveryAdapter for LRec {
     async fn discover(&self) -> passage_adapters::Result<Vec<Target>> {
         tokio::time::sleep(self.discover_delay).await;
+        if self.no_targets {
+            return Ok(vec![]);
+        }
         Ok(vec![Target { identifier: "t".into(), address: "10.9.8.7:25565".parse().unwrap(), meta: Default::default() }])
     }
 }
 impl LocalizationAdapter for LRec {
-    async fn localize(&self, _l: Option<&str>, key: &str, _p: &[(&'static str, String)]) -> passage_adapters::Result<String> {
-        Ok(key.to_string())
+    async fn localize(&self, l: Option<&str>, key: &str, p: &[(&'static str, String)]) -> passage_adapters::Result<String> {
+        self.fixed.localize(l, key, p).await
     }
+}
+
+fn fixed_localization() -> passage_adapters::FixedLocalizationAdapter {
+    let mut messages = std::collections::HashMap::new();
+    for t in ["en_US", "de", "de_AT"] {
+        let mut m = std::collections::HashMap::new();
+        for k in ["disconnect_no_target", "disconnect_timeout"] {
+            m.insert(k.to_string(), format!("{k} ({t})"));
+        }
+        messages.insert(t.to_string(), m);
+    }
+    passage_adapters::FixedLocalizationAdapter::new("en_US".to_string(), messages)
 }
 
 /// A port no other scenario of this process is given (a counter over a range below the ephemeral ports, so that neither another scenario
@@ -84,7 +103,8 @@ struct Running {
 
 async fn start(cfg: &Value, discover_delay_ms: u64) -> Running {
     let seen = Arc::new(Mutex::new(Seen::default()));
-    let a = Arc::new(LRec { seen: seen.clone(), discover_delay: Duration::from_millis(discover_delay_ms), big_status: cfg["bigStatus"].as_bool().unwrap_or(false) });
+    let a = Arc::new(LRec { seen: seen.clone(), discover_delay: Duration::from_millis(discover_delay_ms), big_status: cfg["bigStatus"].as_bool().unwrap_or(false),
+                            no_targets: cfg["noTargets"].as_bool().unwrap_or(false), fixed: fixed_localization() });
     let proxy = match cfg["proxy"].as_str().unwrap_or("off") {
         "v1" => Some(ParseConfig { include_tlvs: false, allow_v1: true, allow_v2: false }),
         "v2" => Some(ParseConfig { include_tlvs: false, allow_v1: false, allow_v2: true }),
@@ -102,32 +122,30 @@ async fn start(cfg: &Value, discover_delay_ms: u64) -> Running {
     let stop = CancellationToken::new();
     let st = stop.clone();
     let relisten = cfg["relisten"].as_bool().unwrap_or(false);
-    let handle = if relisten {
-        // the same Listener value is used for a second listen(): a first, idle one is started and stopped, then the one the scenario uses
-        tokio::spawn(async move {
-            let st0 = CancellationToken::new();
-            let c0 = st0.clone();
-            tokio::spawn(async move {
-                tokio::time::sleep(Duration::from_millis(120)).await;
-                c0.cancel();
-            });
-            let _ = l.listen(("127.0.0.1", port), st0).await;
+    // the listener always runs on a runtime of its own (cfg.workers threads, four unless the scenario says otherwise) while the clients keep
+    // the harness's runtime: whatever a connection does to the listener's scheduler threads -- block them, spin on them -- the clients'
+    // timeouts still fire and the scenario is recorded instead of taking the harness down with it
+    let w = cfg["workers"].as_u64().unwrap_or(4).max(1) as usize;
+    let (tx, rx) = tokio::sync::oneshot::channel();
+    std::thread::spawn(move || {
+        let rt = tokio::runtime::Builder::new_multi_thread().worker_threads(w).enable_all().build().unwrap();
+        let r = rt.block_on(async move {
+            if relisten {
+                // the same Listener value is used for a second listen(): a first, idle one is started and stopped, then the one the scenario uses
+                let st0 = CancellationToken::new();
+                let c0 = st0.clone();
+                tokio::spawn(async move {
+                    tokio::time::sleep(Duration::from_millis(120)).await;
+                    c0.cancel();
+                });
+                let _ = l.listen(("127.0.0.1", port), st0).await;
+            }
             l.listen(("127.0.0.1", port), st).await.map_err(|e| e.to_string())
-        })
-    } else if let Some(w) = cfg["workers"].as_u64() {
-        // the listener on a runtime of its own with `w` worker threads (the clients keep the harness's runtime): what one connection
-        // does to the scheduler's threads is then not masked by the spare threads of the harness
-        let (tx, rx) = tokio::sync::oneshot::channel();
-        std::thread::spawn(move || {
-            let rt = tokio::runtime::Builder::new_multi_thread().worker_threads(w.max(1) as usize).enable_all().build().unwrap();
-            let r = rt.block_on(async move { l.listen(("127.0.0.1", port), st).await.map_err(|e| e.to_string()) });
-            let _ = tx.send(r);
-            rt.shutdown_timeout(Duration::from_millis(200));
         });
-        tokio::spawn(async move { rx.await.unwrap_or(Err("listener thread ended".to_string())) })
-    } else {
-        tokio::spawn(async move { l.listen(("127.0.0.1", port), st).await.map_err(|e| e.to_string()) })
-    };
+        let _ = tx.send(r);
+        rt.shutdown_timeout(Duration::from_millis(200));
+    });
+    let handle = tokio::spawn(async move { rx.await.unwrap_or(Err("listener thread ended".to_string())) });
     // wait until the socket accepts
     if relisten {
         tokio::time::sleep(Duration::from_millis(300)).await; // the first, idle listen() is over by now
@@ -441,6 +459,56 @@ async fn run_c16(sc: &Value) -> Value {
                         parked.push(t);
                     }
                 }
+            }
+            // clients that log in completely and report locales nobody has a table for -- odd ones among them; each is told (in some language)
+            // that there is no server for it and is gone
+            "odd-locales" => {
+                for (i, loc) in ["_x", "x_", "_", "__", "de__AT", "a_b_c_d_e_f", "\u{e9}_\u{e9}", "_DE", "de_", "zz"].iter().enumerate() {
+                    let port = run.port;
+                    let loc = loc.to_string();
+                    floods.push(tokio::spawn(async move {
+                        let Ok(mut t) = Tcp::connect(SocketAddr::new("127.0.0.1".parse().unwrap(), port), None).await else { return };
+                        if proxied {
+                            let _ = t.send_raw(&proxy_v1(label_addr("ipB"), format!("10.0.0.1:{port}").parse().unwrap())).await;
+                        }
+                        let o = login(&mut t, 2, "Polyglot", 300 + i as u128, None, "success", Duration::from_millis(2000)).await;
+                        if o.login_success.is_some() {
+                            let _ = configuration_loc(&mut t, Some(&loc), true, Duration::from_millis(3000)).await;
+                        }
+                    }));
+                }
+                tokio::time::sleep(Duration::from_millis(800)).await;
+            }
+            // very many DIFFERENT addresses, each connecting once (well within its own budget) and looking at the status: whatever the server
+            // keeps per address, a client it has never seen is served like the first one was  ("addresses-120000")
+            st if st.starts_with("addresses-") && proxied => {
+                let n: u32 = st["addresses-".len()..].parse().unwrap_or(1000);
+                let port = run.port;
+                let lanes = 48u32;
+                let mut hs = vec![];
+                for lane in 0..lanes {
+                    hs.push(tokio::spawn(async move {
+                        let local: IpAddr = format!("127.0.0.{}", 10 + lane % 40).parse().unwrap();
+                        let mut served = 0u32;
+                        let mut k = lane;
+                        while k < n {
+                            let src: SocketAddr = format!("10.{}.{}.{}:4000", 1 + (k >> 16), (k >> 8) & 0xff, k & 0xff).parse().unwrap();
+                            if let Ok(mut t) = Tcp::connect(SocketAddr::new("127.0.0.1".parse().unwrap(), port), Some(local)).await {
+                                let _ = t.send_raw(&proxy_v1(src, format!("10.0.0.1:{port}").parse().unwrap())).await;
+                                if crate::tcpclient::status_glance(&mut t, Duration::from_millis(2000)).await == "served" {
+                                    served += 1;
+                                }
+                            }
+                            k += lanes;
+                        }
+                        served
+                    }));
+                }
+                let mut served = 0;
+                for h in hs {
+                    served += h.await.unwrap_or(0);
+                }
+                eprintln!("addresses: {served} of {n} served");
             }
             // somebody else CLAIMS the well-behaved player's name and id in Login Start and goes silent
             "claim-victim" => {
